@@ -157,4 +157,12 @@ theorem C08_source_skeletons :
     Gen.Skel.Store_monitorLeaseAsPrimary = Expected.Skel.Store_monitorLeaseAsPrimary :=
   rfl
 
+/-- further regenerated control skeletons (see Model/ExpectedSkel.lean): Store_monitorLease, Store_acquireLeaseOrPrimaryInfo, Store_monitorLeaseAsReplica, Store_Recover -/
+theorem C08_source_skeletons_2 :
+    Gen.Skel.Store_monitorLease = Expected.Skel.Store_monitorLease ∧
+    Gen.Skel.Store_acquireLeaseOrPrimaryInfo = Expected.Skel.Store_acquireLeaseOrPrimaryInfo ∧
+    Gen.Skel.Store_monitorLeaseAsReplica = Expected.Skel.Store_monitorLeaseAsReplica ∧
+    Gen.Skel.Store_Recover = Expected.Skel.Store_Recover :=
+  ⟨rfl, rfl, rfl, rfl⟩
+
 end LiteFSVerif.C08
